@@ -400,6 +400,32 @@ def check (P : Prog) (cfg : Cfg) : Bool :=
     specAtomsOk P.nIn cfg.spec &&
     allDiv cfg.modulus (psub (weighted env n cfg.obs cfg.weights) cfg.spec)
 
+/-- one linear claim about observed variables -/
+structure Claim where
+  obs : List Nat
+  outLo : List Int
+  outHi : List Int
+  weights : List Int
+  spec : Poly
+  modulus : Int
+
+def claimOk (env : List AV) (n nIn : Nat) (c : Claim) : Bool :=
+  outsOk env n c.obs c.outLo c.outHi &&
+  c.weights.length == c.obs.length &&
+  specAtomsOk nIn c.spec &&
+  allDiv c.modulus (psub (weighted env n c.obs c.weights) c.spec)
+
+/-- several claims (and an arbitrary recogniser over the abstract environment) checked with ONE
+    abstract run — the run dominates the kernel cost of large programs -/
+def checkMulti (P : Prog) (inLo inHi : List Int) (claims : List Claim) (extra : List AV → Nat → Bool) : Bool :=
+  inLo.length == P.nIn && inHi.length == P.nIn &&
+  inputsOk P.signed inLo inHi &&
+  match arun P.signed P.body (initEnv inLo inHi) P.nIn with
+  | none => false
+  | some env =>
+    let n := P.nIn + P.body.length
+    claims.all (claimOk env n P.nIn) && extra env n
+
 /-- the abstract environment computed by a successful check (exported by the soundness theorem) -/
 def absEnv (P : Prog) (cfg : Cfg) : Option (List AV) :=
   arun P.signed P.body (initEnv cfg.inLo cfg.inHi) P.nIn
